@@ -72,16 +72,8 @@ Qed.
    string, name, boolean or null, preceded by any white space and comments, is read by Parser::parse as that
    object, without a warning, leaving exactly what the specification lexer leaves.
 
-   The full statement (arrays, dictionaries, "n g R"; the container stack and the two-slot integer buffer of
-   parse_remainder) is
-     parse_complete (full statement) : forall inp toks o toks', bytes_ok inp -> lex_ok inp = true ->
-       lex_spec inp = Some toks -> syn_obj (S (length toks)) toks = Some (o, toks') -> obj_in_range o ->
-       exists r, parse_object false false t inp pos = r /\ pr_warn r = [] /\ lex_spec (pr_rest r) = Some toks' /\
-                 exists o', pr_obj r = Some o' /\ equivalent (mo_abs o') o.
-   It is not proved yet: what is missing is the simulation between the recursive-descent specification with
-   two tokens of look-ahead and the explicit stack + deferred integers of remainder_step.  That part of the
-   model is tied to the implementation and compared with the specification by the check (object-syntax part). *)
-Lemma parse_complete_partial_lemma : forall inp tok rest o t pos,
+   Arrays and dictionaries (with "n g R") are parse_complete_container in Obj/ParseSim.v. *)
+Lemma parse_complete_scalar_lemma : forall inp tok rest o t pos,
   bytes_ok inp -> t_incl_ign t = false -> t_state t <> TS_inline_image ->
   spec_next inp = LexTok tok rest -> ~ In 11 (head_run inp) -> scalar_of tok = Some o ->
   exists o', pr_obj (parse_object false false t inp pos) = Some o' /\ mo_abs o' = Some o /\
